@@ -1,0 +1,56 @@
+//! Verification hook (only with `--cfg veryl_verif`): a per-thread gate in
+//! front of the whole-design AOT-C artifact.  While a kind's dispatch counter
+//! is below its threshold, `AotCWhole::try_dispatch` answers `NotReady` exactly
+//! as it does while an asynchronous compile is still pending, so a monitor can
+//! choose the settle / event at which the compiled code takes over and record
+//! which swap points were really exercised.  Thresholds default to 0: no effect.
+
+use std::cell::{Cell, RefCell};
+
+pub const KIND_COMB: usize = 0;
+pub const KIND_EVENT: usize = 1;
+
+thread_local! {
+    static KIND: Cell<usize> = const { Cell::new(KIND_COMB) };
+    static GATE: Cell<[u64; 2]> = const { Cell::new([0, 0]) };
+    static COUNT: Cell<[u64; 2]> = const { Cell::new([0, 0]) };
+    /// (kind, dispatch number, blocked)
+    static LOG: RefCell<Vec<(usize, u64, bool)>> = const { RefCell::new(Vec::new()) };
+}
+
+/// Dispatches `0..comb` of the comb artifact and `0..event` of every event
+/// artifact answer `NotReady`.  Resets the counters and the log.
+pub fn set_gate(comb: u64, event: u64) {
+    GATE.with(|g| g.set([comb, event]));
+    COUNT.with(|c| c.set([0, 0]));
+    LOG.with(|l| l.borrow_mut().clear());
+}
+
+pub fn take_log() -> Vec<(usize, u64, bool)> {
+    LOG.with(|l| std::mem::take(&mut *l.borrow_mut()))
+}
+
+pub(crate) fn set_kind(kind: usize) {
+    KIND.with(|k| k.set(kind));
+}
+
+/// `is_const`: the run-once constant cone; it follows the comb gate without
+/// consuming a dispatch number.
+pub(crate) fn gate_blocks(is_const: bool) -> bool {
+    let kind = KIND.with(|k| k.get());
+    let gate = GATE.with(|g| g.get());
+    let mut count = COUNT.with(|c| c.get());
+    let n = count[kind];
+    let blocked = n < gate[kind];
+    if !is_const {
+        count[kind] = n + 1;
+        COUNT.with(|c| c.set(count));
+        LOG.with(|l| {
+            let mut l = l.borrow_mut();
+            if l.len() < 4096 {
+                l.push((kind, n, blocked));
+            }
+        });
+    }
+    blocked
+}
